@@ -164,26 +164,29 @@ impl Deriv<'_> {
     }
     /// the vector w_k = sum_ij T_ijk u_i v_j for the symmetric third-derivative tensor T
     pub fn third_contract(&self, u: &[f64], v: &[f64]) -> Vec<f64> {
+        self.third_contract_scaled(u, v, &vec![1.0; self.x.len()])
+    }
+    /// same, with the k-th probe direction taken as `scale[k] * e_k` (and the result divided by it):
+    /// choosing scale[k] ~ |x_k| keeps the three directions of the polarisation identity comparable
+    /// in size, which avoids the cancellation of huge cubic terms when x is tiny or huge
+    pub fn third_contract_scaled(&self, u: &[f64], v: &[f64], scale: &[f64]) -> Vec<f64> {
         let n = self.x.len();
         let mut out = vec![0.0; n];
         for k in 0..n {
             let mut acc = DD::ZERO;
             for (e2, e3) in [(1.0, 1.0), (1.0, -1.0), (-1.0, 1.0), (-1.0, -1.0)] {
-                let mut d: Vec<f64> = (0..n).map(|i| u[i] + e2 * v[i]).collect();
-                d[k] += e3;
-                // directions are sums of f64s: exact only up to one rounding each; use DD directions instead
+                // directions are sums of f64s: keep them exact by forming them in double-double
                 let jets: Vec<Jet3> = (0..n)
                     .map(|i| {
-                        let di = DD::new(u[i]) + DD::new(e2 * v[i]) + if i == k { DD::new(e3) } else { DD::ZERO };
+                        let di = DD::new(u[i]) + DD::new(e2 * v[i]) + if i == k { DD::new(e3 * scale[k]) } else { DD::ZERO };
                         Jet3 { c: [DD::new(self.x[i]), di, DD::ZERO, DD::ZERO] }
                     })
                     .collect();
-                let _ = &d;
                 let a3 = (self.f)(&jets).c[3];
                 acc = acc + DD::new(e2 * e3) * a3;
             }
             // T(u,v,e_k) = (1/24) sum eps2 eps3 C(.) with C = 6 a3  => (1/4) sum eps2 eps3 a3
-            out[k] = (acc * DD::new(0.25)).f();
+            out[k] = (acc * DD::new(0.25) / DD::new(scale[k])).f();
         }
         out
     }
